@@ -14,6 +14,8 @@ struct Counters {
     seed_drops: AtomicU64,
     value_drops: AtomicU64,
     ok_runs: AtomicU64,
+    /// 1 + index of the initialiser that succeeded last
+    winner: AtomicU64,
 }
 
 struct Seed {
@@ -76,6 +78,7 @@ fn scenario(outs: &[Out], concurrent: bool, panic_on_drop: bool) -> Option<Strin
                         std::thread::sleep(std::time::Duration::from_micros(300));
                     }
                     c.ok_runs.fetch_add(1, Ordering::SeqCst);
+                    c.winner.store(i as u64 + 1, Ordering::SeqCst);
                     Ok(Val { c: c.clone(), n: i as u64 })
                 }
                 Out::Fail => Err("failed"),
@@ -131,6 +134,13 @@ fn scenario(outs: &[Out], concurrent: bool, panic_on_drop: bool) -> Option<Strin
         }
         if !inited && results.iter().any(|(_, r)| r.is_ok()) {
             bad.push("a caller got a value from an uninitialised cell".into());
+        }
+    }
+    // the value in the cell is the one the successful initialiser made
+    if let Some(v) = cell.get() {
+        let w = c.winner.load(Ordering::SeqCst);
+        if ok_runs == 1 && v.n + 1 != w {
+            bad.push(format!("the cell holds value #{} but initialiser #{} succeeded", v.n, w.wrapping_sub(1)));
         }
     }
     let seed_before = c.seed_drops.load(Ordering::SeqCst);
@@ -253,6 +263,43 @@ fn get_does_not_block() -> Option<String> {
     res
 }
 
+/// while the initialising thread is still dropping the seed, `get` either says None or already
+/// shows the final value -- never anything else
+fn get_during_seed_destructor() -> Option<String> {
+    struct SlowSeed(Arc<std::sync::atomic::AtomicBool>, [u64; 4]);
+    impl Drop for SlowSeed {
+        fn drop(&mut self) {
+            self.0.store(true, Ordering::SeqCst);
+            std::thread::sleep(std::time::Duration::from_millis(150));
+        }
+    }
+    let dropping = Arc::new(std::sync::atomic::AtomicBool::new(false));
+    let cell: OnceInitCell<SlowSeed, [u64; 4]> = OnceInitCell::new(SlowSeed(dropping.clone(), [7; 4]));
+    let mut res = None;
+    std::thread::scope(|s| {
+        s.spawn(|| {
+            cell.get_or_init(|_| [42; 4]);
+        });
+        let t0 = std::time::Instant::now();
+        while !dropping.load(Ordering::SeqCst) && t0.elapsed() < std::time::Duration::from_secs(5) {
+            std::hint::spin_loop();
+        }
+        for _ in 0..50 {
+            if let Some(v) = cell.get() {
+                if *v != [42; 4] {
+                    res = Some(format!("get() returned {:?} while the seed was being dropped (the initialiser made {:?})", v, [42u64; 4]));
+                    break;
+                }
+            }
+            std::thread::sleep(std::time::Duration::from_millis(2));
+        }
+    });
+    if res.is_none() && cell.get() != Some(&[42; 4]) {
+        res = Some(format!("after initialisation get() = {:?}", cell.get()));
+    }
+    res
+}
+
 pub fn run(a: &Args) {
     std::panic::set_hook(Box::new(|_| {}));
     let max_len = if a.thorough() { 5 } else { 4 };
@@ -276,8 +323,9 @@ pub fn run(a: &Args) {
             bad.extend(scenario(s, false, true));
         }
     }
-    evals += 1;
+    evals += 2;
     bad.extend(get_does_not_block());
+    bad.extend(get_during_seed_destructor());
     if !bad.is_empty() {
         let f: String = bad
             .iter()
